@@ -90,25 +90,6 @@ abbrev LastErr := Nat × Bytes
 /-- `RuntimeError()`: no error. -/
 def LastErr.clear : LastErr := (Gen.EXC_RT_NOERROR, [])
 
-/-- `FunctorManager::Entry::ctx_cache` of every function (key: name and parameter count), most recently released
-context first. `createEnv` resets the variables, symbols, return condition and recursion depth of a recycled context —
-but not its `_last_error`: that record is all that distinguishes one cached context from another, so the model keeps
-exactly that per cached context. -/
-abbrev CtxCache := List ((String × Nat) × List LastErr)
-
-/-- `ctx_cache.front(); pop_front()` — or a new context (`createChildRuntime`, record clear) when the cache is empty. -/
-def cacheTake (c : CtxCache) (k : String × Nat) : LastErr × CtxCache :=
-  match c.find? (·.1 == k) with
-  | some (_, r :: rest) => (r, c.map fun e => if e.1 == k then (k, rest) else e)
-  | _ => (LastErr.clear, c)
-
-/-- `ctx_cache.push_front(ctx)` (`~Env`, and `createEnv` when an argument fails). -/
-def cachePut (c : CtxCache) (k : String × Nat) (r : LastErr) : CtxCache :=
-  if c.any (·.1 == k) then c.map fun e => if e.1 == k then (k, r :: e.2) else e else c ++ [(k, [r])]
-
-/-- `Entry::clearCache()` (run by the `function` statement when it is executed). -/
-def cacheClear (c : CtxCache) (k : String × Nat) : CtxCache := c.filter (·.1 != k)
-
 /-- One execution context: its variables, the value saved by `return`, plus the process-wide
 output stream (threaded through calls). -/
 structure St where
@@ -121,11 +102,9 @@ structure St where
   budget : Nat := 300000
   /-- running `forall` loops of this context, innermost first (part of the control stack) -/
   iters : List Iter := []
-  /-- `_last_error`: set by `BEGINStatement::docatch` when a clause is entered, cleared when the clause ends
-  without error (NOT restored to what it was), left as it is when the clause itself fails -/
+  /-- `_last_error`: set by `BEGINStatement::docatch` when a clause is entered, set back when the clause ends without error to
+  what it was WHEN THE ERROR WAS CAUGHT (`const RuntimeError outer = ctx.error()`, repo 72036d1), left as it is when the clause itself fails -/
   lastErr : LastErr := LastErr.clear
-  /-- the cached contexts of the functions (shared by the whole process like the output stream) -/
-  ctxCache : CtxCache := []
   /-- `for` / `while` entries of the control stack (`Context::_controlstack`) as far as a run can LEAVE them behind: a program run by
   `Executable::run` never does (its catch-all calls `Context::onRuntimeError`, which unstacks them — in the model `for`/`while` are
   plain recursion and this field stays as it is); only the interactive runner (`stepTop` below) can, and does -/
@@ -255,33 +234,32 @@ def errorTuple (r : LastErr) : Res Val :=
   | .haz h => .haz h
   | .unmodelled => .unmodelled
 
-def Func.key (f : Func) : String × Nat := (f.name, f.params.length)
-
 /-- The context a call runs in (`createEnv`): every symbol of the function as a typed null,
-parameters bound to the argument values; it shares only the output stream, the work budget and the
-functions' context caches with the caller — and it carries the error record `rec0` of the cached context it is
-(clear for a new one). -/
-def calleeInit (f : Func) (vals : List Val) (rec0 : LastErr) (caller : St) : St :=
+parameters bound to the argument values; it shares only the output stream and the work budget
+with the caller. Its error record is clear: a new context has none, and a context recycled from the function's
+cache gets `_ctx->error(RuntimeError())` (repo e310d98) besides the reset of variables, symbols, return condition and
+recursion depth — so nothing distinguishes a cached context from a new one and the cache needs no counterpart here. -/
+def calleeInit (f : Func) (vals : List Val) (caller : St) : St :=
   { vars := ((f.params.map (·.1)).zip vals).foldl (fun vs (n, v) => setVar vs n v) (f.decls.map fun (n, t) => (n, Val.null t)),
     returned := none, out := caller.out, budget := caller.budget, iters := [],
-    lastErr := rec0, ctxCache := caller.ctxCache }
+    lastErr := LastErr.clear }
 
 /-- Back in the caller (`FunctorExpression::value` after `body->doit`): the value saved by `return`
 (or an untyped null), the caller's own variables (and error record) untouched, output and budget carried over. -/
-def finishCall (f : Func) (caller : St) (r : Res Flow × St) : Res Val × St :=
-  -- `~Env`: the context goes back to the front of the function's cache, with the error record it ended with
-  let back : St := { caller with out := r.2.out, budget := r.2.budget, ctxCache := cachePut r.2.ctxCache f.key r.2.lastErr }
+def finishCall (caller : St) (r : Res Flow × St) : Res Val × St :=
+  let back : St := { caller with out := r.2.out, budget := r.2.budget }
   match r.1 with
   | .ok _ => (.ok (r.2.returned.getD (.null Ty.none)), back)
   | .err c a => (.err c a, back)
   | .haz h => (.haz h, back)
   | .unmodelled => (.unmodelled, back)
 
-/-- `docatch` after the clause has run: `ctx.error(RuntimeError())` when it ended without error — the record is cleared,
-not restored to what it was before the clause —; a failing clause leaves the record as it is. -/
-def handlerExit (r : Res Flow × St) : Res Flow × St :=
+/-- `docatch` after the clause has run: `ctx.error(outer)` when it ended without error — the record is set back to `outer`, what
+`ctx.error()` held when the error was caught (the error of an enclosing clause that is still running, or none; also a STALE record
+when the error caught comes out of an inner clause that failed) —; a failing clause leaves the record as it is. -/
+def handlerExit (outer : LastErr) (r : Res Flow × St) : Res Flow × St :=
   match r with
-  | (.ok fl, s2) => (.ok fl, { s2 with lastErr := LastErr.clear })
+  | (.ok fl, s2) => (.ok fl, { s2 with lastErr := outer })
   | r => r
 
 /-- the members that work in place and return their receiver (`concat`, `put`, `delete`, `insert`) -/
@@ -422,16 +400,10 @@ mutual
       match funcs.find? (fun f => f.name == name && f.params.length == args.length) with
       | none => liftM (Res.unmodelled : Res Val)
       | some f =>
-        if depth == Gen.RECURSION_LIMIT then failE Gen.EXC_RT_RECURSION_LIMIT else fun caller =>
-        -- createEnv: a cached context of the function (or a new one) is taken first, then the
-        -- parameters are evaluated in the caller, in order, and stored by copy into that context
-        let taken := cacheTake caller.ctxCache f.key
-        match evalArgs funcs depth fuel args { caller with ctxCache := taken.2 } with
-        | (.ok vals, s1) => finishCall f s1 (execBlock funcs (depth + 1) fuel f.body f.catches (calleeInit f vals taken.1 s1))
-        -- an argument failed: the context is handed back unused
-        | (.err c a, s1) => (.err c a, { s1 with ctxCache := cachePut s1.ctxCache f.key taken.1 })
-        | (.haz h, s1) => (.haz h, { s1 with ctxCache := cachePut s1.ctxCache f.key taken.1 })
-        | (.unmodelled, s1) => (.unmodelled, { s1 with ctxCache := cachePut s1.ctxCache f.key taken.1 })
+        if depth == Gen.RECURSION_LIMIT then failE Gen.EXC_RT_RECURSION_LIMIT else do
+        -- parameters: evaluated in the caller, in order, stored by copy into the fresh callee context
+        let vals ← evalArgs funcs depth fuel args
+        fun caller => finishCall caller (execBlock funcs (depth + 1) fuel f.body f.catches (calleeInit f vals caller))
 
   def evalArgs (funcs : List Func) (depth : Nat) : Nat → List Expr → EvalM (List Val)
     | 0, _ => oof
@@ -453,7 +425,7 @@ mutual
         if c == oofCode then (.err c a, s') else
         match catches.find? (fun cl => catchMatches cl.1 c a) with
         | some (_, handler) =>
-          handlerExit (execList funcs depth fuel handler { s' with lastErr := (c, a) })
+          handlerExit s'.lastErr (execList funcs depth fuel handler { s' with lastErr := (c, a) })
         | none => (.err c a, s')
       | r => r
 
@@ -473,9 +445,7 @@ mutual
       (fun s => (show EvalM Flow from
       match st with
       | .nop => pure .norm
-      | .funcS n ps _ _ _ => do                 -- declarations take effect when compiled; FUNCTIONStatement::doit drops the cached contexts
-        modifySt fun s => { s with ctxCache := cacheClear s.ctxCache (n, ps.length) }
-        pure .norm
+      | .funcS _ _ _ _ _ => pure .norm          -- declarations take effect when compiled
       | .letS n e => do
         let s ← getSt
         match s.iters.find? (·.it == n) with
@@ -592,8 +562,25 @@ def builtinType (name : String) (argTys : List Ty) : Ty :=
   match Gen.builtinTypes.find? (·.1 == name) with
   | some (_, .const m) => { major := m }
   | some (_, .arg0) => argTys.headD Ty.none
-  | _ => match name with
+  | _ =>
+    let isInt := fun (t : Ty) => t.major == .int && t.level == 0
+    let isImag := fun (t : Ty) => t.major == .imag && t.level == 0
+    match name with
     | "tokenize" => tabStrTy
+    -- `type()` of builtin_max / min / mod / pow .cpp: integer for two integers, else decimal (pow: complex when one is)
+    | "max" | "min" | "mod" =>
+      match argTys with
+      | [a, b] => if isInt a && isInt b then Ty.int else Ty.num
+      | _ => Ty.num
+    | "pow" =>
+      match argTys with
+      | [a, b] => if isImag a || isImag b then Ty.imag else if isInt a && isInt b then Ty.int else Ty.num
+      | _ => Ty.num
+    -- builtin_sqrt.cpp and the other one-argument libm functions: complex for a complex argument, else decimal
+    | "sqrt" | "exp" | "log" | "log10" | "sin" | "cos" | "tan" | "asin" | "acos" | "atan" | "sinh" | "cosh" | "tanh" =>
+      match argTys with
+      | [a] => if isImag a then Ty.imag else Ty.num
+      | _ => Ty.num
     | _ => Ty.none
 
 def typeOfExpr (funcs : List Func) (tab : List (String × Ty)) : Nat → Expr → Ty
@@ -765,19 +752,20 @@ def lockProgram (prog : List Stmt) : Bool :=
 
 /-! ### the interactive runner (apps/cli_parser.cpp, main loop of `bloc -i`)
 
-Every statement typed at the prompt is parsed on its own and its chain is executed with `Statement::execute` directly:
-`while (r) { try { r = r->execute(ctx); } catch (RuntimeError&) { …; ctx.purgeWorkingMemory(); break; } }` — there is NO
-`Executable::run` around it, hence no `Context::onRuntimeError()` for an error thrown by the statement's own `doit`.
-What differs from a program run is therefore exactly the control stack:
+Every statement typed at the prompt is parsed on its own and its chain is executed with `Statement::execute` directly — there is NO
+`Executable::run` around it —; the runner's own handler does what `Executable::run`'s catch-all does (repo 3db7ed2):
+`while (r) { try { r = r->execute(ctx); } catch (RuntimeError&) { …; ctx.onRuntimeError(); break; } }`.
+The control stack under the runner (`St.ctl`):
 * a top-level `while` stacks its control entry BEFORE it evaluates the condition (WHILEStatement::doit), a top-level `for`
   when the header has been evaluated; both unstack it when the loop ends;
-* an error inside the BODY passes the `Executable::run` of that body (execution level 0): `onRuntimeError` unstacks every
-  entry whose statement level is ≥ 0 — all of them, stale ones of earlier statements included;
+* an error inside a loop / if BODY passes the `Executable::run` of that body (execution level 0): `onRuntimeError` unstacks every
+  entry whose statement level is ≥ 0 — all of them (`purgeOnErr`);
 * an error thrown by the loop statement ITSELF (the `while` condition, at any iteration; the `for` re-entry finding its
-  control variable null) reaches the runner with the entry still stacked: it stays (`St.ctl`), together with the
-  type-safety flag a `for` put on its variable (flags are not part of this model).
-`begin … end` pushes the execution level, so the runs inside it only unstack entries of level ≥ 1: it neither leaves nor
-removes level-0 entries; the same holds for the simple statements (their errors come from `doit` directly). -/
+  control variable null) leaves `doit` with the entry still stacked — and is then caught by the runner, whose `onRuntimeError`
+  (execution level 0 again: `begin` blocks have popped their level on the way out) unstacks everything (`stepTop`).
+  Before 3db7ed2 the runner only purged the working memory and that entry stayed: finding C07.interactive_runner_keeps_control_entry (fixed).
+A pending `return` is cleared by the runner (`ctx.returnCondition(false)`; the cli then prints the value on ITS terminal —
+`output_cli`, not the context's output stream) and the session goes on. -/
 
 /-- `Executable::run`'s catch-all at execution level 0: `Context::onRuntimeError` unstacks every control entry. -/
 def purgeOnErr {α} (x : EvalM α) : EvalM α := fun s =>
@@ -785,76 +773,22 @@ def purgeOnErr {α} (x : EvalM α) : EvalM α := fun s =>
   | (.ok a, s') => (.ok a, s')
   | (r, s') => (r, { s' with ctl := [] })
 
-def ctlPush (k : String) : EvalM Unit := modifySt fun s => { s with ctl := k :: s.ctl }
-def ctlPop : EvalM Unit := modifySt fun s => { s with ctl := s.ctl.tail }
-
-/-- IFStatement::doit at top level: the taken branch is a run at level 0. -/
-def ifTop (funcs : List Func) (fuel : Nat) : List (Option Expr × List Stmt) → EvalM Flow
-  | [] => pure .norm
-  | (none, body) :: _ => purgeOnErr (execList funcs 0 fuel body)
-  | (some c, body) :: rest => do
-    let v ← eval funcs 0 fuel c
-    let t ← liftM (condTaken v)
-    if t then purgeOnErr (execList funcs 0 fuel body) else ifTop funcs fuel rest
-
-/-- `Statement::execute` chain of ONE top-level statement under the interactive runner. -/
-def stepTop (funcs : List Func) (fuel : Nat) (st : Stmt) : EvalM Flow := fun s0 =>
-  if s0.budget == 0 then oof s0 else
-  (show EvalM Flow from
-    match st with
-    | .whileS c body => do
-      ctlPush "while"
-      let fl ← whileLoop (eval funcs 0 fuel c) (purgeOnErr (execList funcs 0 fuel body)) fuel
-      ctlPop
-      pure fl
-    | .forS v b e step dir body => do
-      -- FORStatement::doit, first entry (as in `exec`)
-      let vb ← eval funcs 0 fuel b
-      if vb.isNull then return .norm
-      let ve ← eval funcs 0 fuel e
-      if ve.isNull then return .norm
-      let mut s : Int64 := 1
-      match step with
-      | some se =>
-        let vs ← eval funcs 0 fuel se
-        if vs.isNull then return .norm
-        s ← liftM vs.asInt
-        if s < 1 then failE Gen.EXC_RT_OUT_OF_RANGE else pure ()
-      | none => pure ()
-      let bi ← liftM vb.asInt
-      let ei ← liftM ve.asInt
-      if ei > bi then
-        if dir == .desc then return .norm
-        modifySt fun st => { st with vars := setVar st.vars v (.int bi) }
-        ctlPush ("for " ++ v)
-        let fl ← forLoop (purgeOnErr (execList funcs 0 fuel body)) v bi ei s fuel
-        ctlPop
-        pure fl
-      else
-        if dir == .asc && ei != bi then return .norm
-        modifySt fun st => { st with vars := setVar st.vars v (.int bi) }
-        ctlPush ("for " ++ v)
-        let fl ← forLoop (purgeOnErr (execList funcs 0 fuel body)) v ei bi (0 - s) fuel
-        ctlPop
-        pure fl
-    | .ifS rules => ifTop funcs fuel rules
-    | .forallS it src dir body => fun s =>
-      -- the body of a `forall` is a level-0 run too: with nothing stale on the stack that makes no difference; with stale
-      -- entries it would remove them — not modelled (the generator never produces it)
-      if s.ctl.isEmpty then exec funcs 0 (fuel + 1) (.forallS it src dir body) { s with budget := s.budget + 1 } else (.unmodelled, s)
-    | st => fun s => exec funcs 0 (fuel + 1) st { s with budget := s.budget + 1 })
-  { s0 with budget := s0.budget - 1 }
+/-- One statement under the interactive runner: its `Statement::execute` chain (`exec`: the same `doit` code as in a program run) and,
+on a runtime error, the runner's `ctx.onRuntimeError()`. While a top-level `while` / `for` runs its entry is on the control stack
+(a `while` stacks it before its condition is evaluated, so an error of the condition leaves `doit` with the entry stacked); what
+`St.ctl` records is what is there when the statement is OVER: unchanged after a normal end (the loop unstacked its entry), empty
+after an error (the runner's `onRuntimeError` at execution level 0 unstacks every entry). -/
+def stepTop (funcs : List Func) (fuel : Nat) (st : Stmt) : EvalM Flow := purgeOnErr (exec funcs 0 fuel st)
 
 /-- The interactive main loop over the statements typed one after the other: each runs on its own from the state the
-previous one left — also after an error, which is reported and does not end the session. A pending `return` is cleared by
-the runner (and its value printed by the cli: not modelled, `unmodelled`). -/
+previous one left — also after an error, which is reported and does not end the session, and after a `return`, whose pending
+condition and saved value the runner takes away. -/
 def runInteractive (funcs : List Func) (fuel : Nat) : List Stmt → St → List (Res Flow) × St
   | [], s => ([], s)
   | st :: rest, s =>
     match stepTop funcs fuel st s with
-    | (.ok .ret, s') => ([.unmodelled], s')
     | (r, s') =>
-      let (rs, s'') := runInteractive funcs fuel rest s'
+      let (rs, s'') := runInteractive funcs fuel rest { s' with returned := none }
       (r :: rs, s'')
 
 end BlocV
